@@ -167,9 +167,20 @@ pub fn cse_detect(fe: &BodyForm) -> Result<Vec<CSEDetectionWithoutConditions>, C
         }
     }
 
-    let detections: Vec<CSEDetectionWithoutConditions> = by_hash
+    // Take the groups in the order their first members appear in the expression.
+    // The order of the hashes themselves changes with the numbers in the renamed
+    // variables the expressions contain.
+    let mut hashes_in_order_found: Vec<Vec<u8>> = Vec::new();
+    for expr in found_exprs.iter() {
+        if !hashes_in_order_found.contains(&expr.context) {
+            hashes_in_order_found.push(expr.context.clone());
+        }
+    }
+
+    let detections: Vec<CSEDetectionWithoutConditions> = hashes_in_order_found
         .into_iter()
-        .filter_map(|(k, v)| {
+        .filter_map(|k| {
+            let v = by_hash.remove(&k)?;
             if v.len() < 2 {
                 return None;
             }
